@@ -37,22 +37,28 @@ def _tree(n):
     return [os.path.join(_DIR, name[0], name) for name in list(FILES)[:n]]
 
 
-def _cfg():
-    return FluffConfig(overrides={"dialect": "ansi", "rules": "LT01,AM04"})
+WARNINGS = [None, "PRS", "LT01,AM04"]
+
+
+def _cfg(warnings=None):
+    ov = {"dialect": "ansi", "rules": "LT01,AM04"}
+    if warnings:
+        ov["warnings"] = warnings
+    return FluffConfig(overrides=ov)
 
 
 def _summary(res):
-    recs = [(os.path.basename(r["filepath"]), [(v["code"], v["start_line_no"], v["start_line_pos"]) for v in r["violations"]])
+    recs = [(os.path.basename(r["filepath"]), [(v["code"], v["start_line_no"], v["start_line_pos"], v.get("warning")) for v in r["violations"]])
             for r in res.as_records()]
     per_dir = sorted((os.path.basename(d.path), d.stats()["files"], d.stats()["violations"]) for d in res.paths)
     return recs, per_dir, res.stats(1, 0)["exit code"], res.stats(1, 0)["violations"]
 
 
-def serial(n):
-    if n not in _SERIAL:
+def serial(n, warnings=None):
+    if (n, warnings) not in _SERIAL:
         paths = tuple(_tree(n))
-        _SERIAL[n] = _summary(Linter(config=_cfg()).lint_paths(paths, processes=1))
-    return _SERIAL[n]
+        _SERIAL[(n, warnings)] = _summary(Linter(config=_cfg(warnings)).lint_paths(paths, processes=1))
+    return _SERIAL[(n, warnings)]
 
 
 def _perm(c, name, n):
@@ -68,6 +74,8 @@ def make(n):
     def factory(excluded=frozenset()):
         def harness(c):
             paths = _tree(n)
+            from symlite.values import choose
+            warnings = choose(c, "warnings_config", WARNINGS)
             order_paths = _perm(c, "path_order", n)
             order_done = _perm(c, "finish_order", n)
 
@@ -86,11 +94,11 @@ def make(n):
             real = rmod.get_runner
             rmod.get_runner = lambda linter, config, processes, allow_process_parallelism=True: (PermRunner(linter, config, processes), processes)
             try:
-                res = Linter(config=_cfg()).lint_paths(tuple(paths[i] for i in order_paths), processes=2)  # REAL
+                res = Linter(config=_cfg(warnings)).lint_paths(tuple(paths[i] for i in order_paths), processes=2)  # REAL
             finally:
                 rmod.get_runner = real
             got = _summary(res)
-            exp = serial(n)
+            exp = serial(n, warnings)
             if order_done != sorted(order_done):
                 c.witness("out_of_order_completion")
             if order_paths != sorted(order_paths):
@@ -101,12 +109,13 @@ def make(n):
 
 
 def units(tier, seed):
-    serial(4 if tier != "quick" else 3)  # temp tree + serial reference built in the parent process
+    for w in WARNINGS:
+        serial(4 if tier != "quick" else 3, w)  # temp tree + serial references built in the parent process
     return [Unit(
         name=f"c24.parallel_vs_serial[{n} files]",
         functions=["sqlfluff.core.linter.runner.ParallelRunner.run/_apply/iter_partials", "Linter.lint_paths (result assembly)",
                    "LintedDir.add", "LintingResult.as_records/stats", "FluffConfig.__getstate__/__setstate__ (real pickle round trip)"],
-        bounds={"files": n, "completion orders": f"all {n}! (forked)", "path orders": f"all {n}! (forked)"},
+        bounds={"files": n, "completion orders": f"all {n}! (forked)", "path orders": f"all {n}! (forked)", "warnings config": WARNINGS},
         make=make(n), replay="concrete",
         stubs=["multiprocessing pool -> in-process map whose results come back in a symbolic permutation; tasks and results are "
                "pickled and unpickled"],
